@@ -119,6 +119,9 @@ class SimRawFile(io.RawIOBase):
                 fs.note_fired(f, self)
                 if f.kind == 'short':
                     n = max(1, min(n - 1, fs.short_len)) if n > 1 else n
+                elif f.kind == 'EINTR':
+                    # a signal arrived: legal, the buffered layer re-issues the call (PEP 475)
+                    raise InterruptedError(errno.EINTR, 'injected EINTR on raw write')
                 else:
                     raise f.make_exc('raw write')
         return self.inner.write(b[:n])
@@ -135,6 +138,8 @@ class SimRawFile(io.RawIOBase):
                 fs.note_fired(f, self)
                 if f.kind == 'short':
                     n = 1
+                elif f.kind == 'EINTR':
+                    raise InterruptedError(errno.EINTR, 'injected EINTR on raw read')
                 else:
                     raise f.make_exc('raw read')
         data = self.inner.read(n)
